@@ -29,7 +29,11 @@ func Dial(wsURL string, token *websocket.Token) (websocket.Conn, error) {
 // `token` はWebSocket接続時の認証ヘッダーに使用します。
 // `tlsConfig` がnilの場合は無視します。
 func DialWithTLS(c websocket.DialConfig) (websocket.Conn, error) {
-	wsURL := strings.Replace(c.URL, "http", "ws", 1)
+	// only the scheme: the first "http" of a ws:// URL is somewhere in its host, path or query
+	wsURL := c.URL
+	if strings.HasPrefix(wsURL, "http") {
+		wsURL = "ws" + strings.TrimPrefix(wsURL, "http")
+	}
 	var header http.Header
 	if c.Token != nil {
 		header = http.Header{}
